@@ -245,6 +245,45 @@ def mk_multi(rng):
     return {"meta": meta, "sql": txt, "rows": rows}
 
 
+def mk_multi_order(rng):
+    """several consecutive batches under ORDER BY (and LIMIT): every batch is sorted and cut on its own rows - also when it holds fewer
+    groups than an earlier batch did (nothing of an earlier batch takes part in a later sort)"""
+    nb = rng.choice([2, 3, 4])
+    sizes = sorted([rng.choice([2, 3, 4]) for _ in range(nb)], reverse=rng.random() < 0.7)       # mostly shrinking batches
+    allg = ["a", "b", "c", "d", "e", "f", "h", "i"]
+    rows, rid, bounds = [], 0, []
+    desc = rng.choice([0, 1])
+    for b in range(nb):
+        groups = rng.sample(allg, sizes[b])
+        # later batches hold values that sort BEHIND / AHEAD of the earlier ones, so that a leftover row of an earlier batch would surface
+        base = (b * 40) if (desc == 0) else ((nb - b) * 40)
+        vals = rng.sample(range(1, 30), sizes[b])
+        for g, v in zip(groups, vals):
+            for _ in range(rng.choice([1, 2])):
+                rid += 1
+                rows.append({"id": rid, "ts": b * 10000 + 1000 + rid, "g": g, "v": base + v, "w": rng.choice([0, 1, 4, 6])})
+        bounds.append(rid)
+    rows.append({"id": rid + 1, "ts": nb * 10000 + 30000, "g": "zz", "v": 1, "w": 1})
+    sel = [{"al": "c0", "e": aggref(rng.choice(["max", "min"]), "v")}, {"al": "c1", "e": aggref(rng.choice(["sum", "count"]), "w")}]
+    order = [{"al": "c0", "desc": desc, "bare": 0}]
+    limit = rng.choice([0, 0, 1, 2])
+    defs = {}
+    collect(sel, defs)
+    lo = 0
+    for hi_ in bounds:      # the order must be total on every batch
+        keys = []
+        for g in set(r["g"] for r in rows[lo:hi_]):
+            env = {k: pyagg(d["fn"], [absv(r.get(d["arg"]), d) for r in rows[lo:hi_] if r["g"] == g], d.get("p", 0)) for k, d in defs.items()}
+            keys.append(pyeval(strip(sel[0]["e"]), env))
+        if any(k is None for k in keys) or len(set(keys)) != len(keys):
+            return None
+        lo = hi_
+    txt = ("SELECT g, " + ", ".join("%s AS %s" % (agg_sql(it["e"]), it["al"]) for it in sel) + " FROM stream GROUP BY g, TumblingWindow('10s') WITH (TIMESTAMP='ts', TIMEUNIT='ms') ORDER BY c0 "
+           + ("DESC" if desc else "ASC") + (" LIMIT %d" % limit if limit else ""))
+    meta = {"fam": "postagg", "n": bounds[0], "bounds": bounds, "aggdefs": list(defs.values()), "sel": strip(sel), "gsel": 1, "order": order, "limit": limit, "distinct": 0}
+    return {"meta": meta, "sql": txt, "rows": rows}
+
+
 def join_variant(sc, rng):
     """the same statement with the group column taken from a joined table and reported under an alias (SELECT m.loc AS site ...
     GROUP BY m.loc), HAVING naming it by its qualified name: the post-aggregation clauses see the same groups. The table maps g to
@@ -303,6 +342,11 @@ def run(tier):
     made = 0
     while made < (120 if quick else 4000):
         sc = mk_multi(rng)
+        if sc is not None:
+            scen.append(sc); made += 1
+    made = 0
+    while made < (100 if quick else 3000):
+        sc = mk_multi_order(rng)
         if sc is not None:
             scen.append(sc); made += 1
     seqfam.run_scenarios(res, scen, "TracePostAgg", tag="postagg", relayout_p=0.3, retype_p=0.3, rename_p=0.3)
